@@ -105,10 +105,11 @@ def registryOfGoVals (gs : List GoVal) : Option Registry := gs.mapM entryOfGoVal
 /-! ## consistency of a registry (decidable; the per-run obligation of C15) -/
 
 /-- every value and every name (aliases and the IANA name included) of every entry resolves to that
-    entry, every entry has a primary value, and the primary value fits the 8-bit ECI form -/
+    entry, every entry has a primary value, the primary value fits the 8-bit ECI form, and the
+    charset has an IANA name (the encoder finds the entry again through it) -/
 def consistent (reg : Registry) : Bool :=
   reg.all (fun e =>
-    (match e.values with | v :: _ => decide (v < 128) | [] => false) &&
+    (match e.values with | v :: _ => decide (v < 128) && e.iana != "" | [] => false) &&
     e.values.all (fun v => decide (v < 900) && lookupValue reg v == some e) &&
     e.allNames.all (fun n => byName reg n == some e))
 
@@ -238,13 +239,16 @@ structure GuessSt where
 def guessStep (g : GuessSt) (v : Nat) : GuessSt :=
   if g.u.can || g.i.can || g.s.can then ⟨utf8Step g.u v, isoStep g.i v, sjisStep g.s v⟩ else g
 
+/-- `len > 3` and the bytes EF BB BF in front -/
+def hasUtf8Bom : List Nat → Bool
+  | 0xEF :: 0xBB :: 0xBF :: _ :: _ => true
+  | _ => false
+
 /-- the decision after the scan -/
 def guessDecide (bytes : List Nat) (g : GuessSt) : Charset :=
   let canU := g.u.can && !(g.u.left > 0)
   let canS := g.s.can && !(g.s.left > 0)
-  let utf8bom := match bytes with
-    | 0xEF :: 0xBB :: 0xBF :: _ :: _ => true
-    | _ => false
+  let utf8bom := hasUtf8Bom bytes
   if canU && (utf8bom || g.u.two + g.u.three + g.u.four > 0) then .utf8
   else if canS && (g.s.maxKata ≥ 3 || g.s.maxDouble ≥ 3) then .sjis
   else if g.i.can && canS then
